@@ -58,6 +58,8 @@ ASSUMPTIONS = [
     "status (+ stream_attach when that line names its circuit), never stream_new",
     "a close request is not made on a gone object whose id is in use again (Tor never re-uses ids that fast)",
     "values Deferreds fire with are not judged, only success/failure and the moment",
+    "the keyword arguments of circuit_closed/failed and stream_detach/closed/failed must be exactly the KEY=value "
+    "fields of the reported line, each under its upper- and lower-case name, and nothing else",
 ]
 TRUSTED_BASE = ["vf.faketor.torsim.TorSim (model, owed notifications, command handling)", "vf.faketor.core.FakeTor / Link",
                 "vf.audit.Auditor", "registration model in vf/props/c08.py"]
@@ -87,6 +89,7 @@ FLOORS = {
               "listeners_added_after_object": 700, "listeners_removed": 200, "repeat_groups_compared": 100,
               "histories_with_all_positions": 3,
               "closed_after_failed_events": 100, "first_seen_in_mid_life_events": 100,
+              "final_lines_lacking_an_earlier_keyword": 500,
               "listener_exceptions_raised": 40, "close_requests_to_be_refused": 60, "waits_meddled_pending": 130,
               "waits_meddled_cancel": 70, "close_ack_late_then_event": 100,
               "reach:txtorcon.circuit:Circuit.close": 450, "reach:txtorcon.stream:Stream.close": 450,
@@ -229,6 +232,7 @@ class Engine(object):
         self.reg = {"c": {}, "s": {}}          # kind -> uid -> {listener idx: scope}
         self.removed = {"c": {}, "s": {}}      # kind -> uid -> set(listener idx)
         self.dead_reg = {"c": {}, "s": {}}     # kind -> uid -> registrations at the moment the object went
+        self.seen_keys = {}                    # (kind, uid) -> keywords Tor has sent for the object so far
         self.raises = []                       # (kind, listener) each time a double raised, per delivery
         self.raise_uids = set()                # objects during whose notification a listener raised
         self.policies = {}
@@ -641,6 +645,10 @@ class Engine(object):
         self.judge_calls(evs, expected, calls, unspecified, snapshot_uids, label)
         del self.raises[:]
         for ev in evs:
+            self.seen_keys.setdefault(("c" if ev.kind == "CIRC" else "s", ev.uid), set()).update(ev.keywords)
+            if ev.gone and any(K not in ev.keywords for K in self.seen_keys[("c" if ev.kind == "CIRC" else "s", ev.uid)]):
+                self.count("final_lines_lacking_an_earlier_keyword")
+        for ev in evs:
             if ev.gone:
                 k = "c" if ev.kind == "CIRC" else "s"
                 self.dead_reg[k][ev.uid] = self.reg[k].pop(ev.uid, {})
@@ -696,6 +704,15 @@ class Engine(object):
                 self.count("kwargs_compared")
                 miss_up = [K for K, v in sent.items() if kw.get(K) != v]
                 miss_lo = [K for K, v in sent.items() if kw.get(K.lower()) != v]
+                allowed = set(sent) | {K.lower() for K in sent}
+                extra = sorted(k2 for k2 in kw if k2 not in allowed)
+                if extra and not (miss_up or miss_lo):
+                    # the flags of THIS line, not those of an earlier one
+                    earlier = self.seen_keys.get((okind, uid), set())
+                    stale = [k2 for k2 in extra if k2.upper() in earlier]
+                    self.V("notification-keywords",
+                           "%s,%s" % (method, "keyword-of-an-earlier-line" if stale else "keyword-tor-did-not-send"),
+                           {"event": ev.text, "kwargs": dict(kw), "not_on_this_line": extra})
                 if miss_up or miss_lo:
                     self.V("notification-keywords",
                            "%s,%s" % (method, "lower-case-missing" if not miss_up else
